@@ -545,6 +545,28 @@ def timetable(ctx, P):
                 start = [x for x in gen.body if isinstance(x, ast.Assign) and unparse(x.targets[0]) == idx]
                 if not start or unparse(start[0].value) != "0":
                     okk, why = False, "the index must start at 0"
+    if not okk and not loops_:
+        # the same sequence written as `for i in count(): date = f(i); yield date, values[(i + 1) % n]`
+        floops = [x for x in ast.walk(gen) if isinstance(x, ast.For) and isinstance(x.iter, ast.Call) and call_name(x.iter) == "count"
+                  and (not x.iter.args or unparse(x.iter.args[0]) == "0") and len(x.iter.args) <= 1 and not x.iter.keywords and isinstance(x.target, ast.Name)]
+        if len(floops) == 1 and len(ys) == 1 and isinstance(ys[0].value, ast.Tuple) and len(ys[0].value.elts) == 2:
+            idx = floops[0].target.id
+            body = [x for x in floops[0].body if not isinstance(x, ast.Pass)]
+            dn = ys[0].value.elts[0]
+            dexpr = dn
+            if isinstance(dn, ast.Name):
+                ds = [x for x in body if isinstance(x, ast.Assign) and unparse(x.targets[0]) == dn.id]
+                dexpr = ds[0].value if len(ds) == 1 else None
+            okk, why = True, ""
+            lin = linear(unparse(dexpr)) if dexpr is not None else None
+            want = {off: 1, "%s[%s %% %s]" % (bnd, idx, nname): 1, "%s // %s * self.cyclelength" % (idx, nname): 1}
+            alt = {off: 1, "%s[%s %% %s]" % (bnd, idx, nname): 1, "self.cyclelength * (%s // %s)" % (idx, nname): 1}
+            if lin is None or lin[1] != 0 or lin[0] not in (want, alt):
+                okk, why = False, "date must be %s + %s[%s %% %s] + (%s // %s) * self.cyclelength" % (off, bnd, idx, nname, idx, nname)
+            elif unparse(ys[0].value.elts[1]).replace(" ", "") not in ("%s[(%s+1)%%%s]" % (vals, idx, nname), "%s[(1+%s)%%%s]" % (vals, idx, nname)):
+                okk, why = False, "the size announced with a date must be %s[(%s + 1) %% %s] (the size of the NEXT shift)" % (vals, idx, nname)
+            elif any(isinstance(x, (ast.Assign, ast.AugAssign)) and idx in [unparse(t) for t in (x.targets if isinstance(x, ast.Assign) else [x.target])] for x in ast.walk(floops[0])):
+                okk, why = False, "the loop index must not be modified inside the loop"
     ob.ok("Schedule.get_schedule_generator", "date = offset + boundaries[i % n] + (i // n) * cyclelength; yield (date, values[(i+1) % n])")
     if not okk:
         ctx.violation(ob, "R5.timetable", "Schedule.get_schedule_generator", "cyclic date formula", "generator-formula", why, loc(gen))
@@ -557,24 +579,32 @@ def schedule_objects(ctx, P):
         if ci is None or m not in ci.methods:
             raise AnalysisError("%s.%s not found" % (cname, m))
         fn = ci.methods[m]
-        nxt = [x for x in ast.walk(fn) if isinstance(x, ast.Call) and isinstance(x.func, ast.Name) and x.func.id == "next"]
         ob.ok("%s.%s" % (cname, m))
-        if len(nxt) != 1 or unparse(nxt[0].args[0]) != "self.schedule_generator":
-            ctx.violation(ob, "R4.generator", "%s.%s" % (cname, m), "next(self.schedule_generator)", "generator-advance-count", "%s must take exactly one (date, size) pair from the generator" % m, loc(fn))
-            continue
-        tgt = None
-        for x in ast.walk(fn):
-            if isinstance(x, ast.Assign) and x.value is nxt[0] and isinstance(x.targets[0], ast.Tuple):
-                tgt = [unparse(e) for e in x.targets[0].elts]
-        got = {}
-        for x in ast.walk(fn):
-            if isinstance(x, ast.Assign) and isinstance(x.targets[0], ast.Attribute) and isinstance(x.value, ast.Name):
-                got[x.targets[0].attr] = x.value.id
-        if not tgt or got.get(fields[0]) != tgt[0] or got.get(fields[1]) != tgt[1]:
-            ctx.violation(ob, "R4.generator", "%s.%s" % (cname, m), "%s, %s = next(...)" % fields, "fields-from-generator", "%s and %s must be the (date, size) just yielded" % fields, loc(fn))
-        if cname == "Schedule":
-            # current c becomes the previously announced next_c, before next_c is overwritten
-            order = [unparse(x.targets[0]) for x in fn.body if isinstance(x, ast.Assign)]
-            if "self.c" not in order or order.count("self.c") != 1 or got.get("c") is not None or order.index("self.c") > order.index("self.next_c") or \
-                    not any(isinstance(x, ast.Assign) and unparse(x.targets[0]) == "self.c" and unparse(x.value) == "self.next_c" for x in fn.body):
-                ctx.violation(ob, "R4.generator", "Schedule.get_next_shift", "self.c = self.next_c", "current-shift-size", "the shift that begins now has the size announced by the previous yield (c = next_c before next_c is replaced)", loc(fn))
+        from ..scans import _subst
+        w = Walker(P, P.view(cname), keep=lambda e: (e.kind == "call" and e.d["meth"] == "next") or e.kind == "assign", inline=rules.new_helper)
+        for st in w.paths_of(ci, fn):
+            if st.status == "raise":
+                continue
+            nxt = [e for e in st.events if e.kind == "call"]
+            if len(nxt) != 1 or nxt[0].d["args"][:1] != ["self.schedule_generator"]:
+                ctx.violation(ob, "R4.generator", "%s.%s" % (cname, m), "next(self.schedule_generator)", "generator-advance-count", "%s must take exactly one (date, size) pair from the generator" % m, loc(fn), witness(st))
+                break
+            defs, final, order = {}, {}, []
+            for e in st.events:
+                if e.kind != "assign":
+                    continue
+                val = _subst(e.d["value"], defs).replace(" ", "")
+                if e.d.get("local"):
+                    defs[e.d["target"]] = val
+                else:
+                    final[e.d["target"]] = val
+                    order.append((e.d["target"], val))
+            want = {"self." + fields[0]: "next(self.schedule_generator)[0]", "self." + fields[1]: "next(self.schedule_generator)[1]"}
+            if any(final.get(k) != v for k, v in want.items()):
+                ctx.violation(ob, "R4.generator", "%s.%s" % (cname, m), "%s, %s = next(...)" % fields, "fields-from-generator", "%s and %s must be the (date, size) just yielded" % fields, loc(fn), witness(st))
+            if cname == "Schedule":
+                # current c becomes the previously announced next_c, before next_c is overwritten
+                cw = [i for i, (t, v) in enumerate(order) if t == "self.c"]
+                nw = [i for i, (t, v) in enumerate(order) if t == "self.next_c"]
+                if len(cw) != 1 or order[cw[0]][1] != "self.next_c" or not nw or cw[0] > nw[0]:
+                    ctx.violation(ob, "R4.generator", "Schedule.get_next_shift", "self.c = self.next_c", "current-shift-size", "the shift that begins now has the size announced by the previous yield (c = next_c before next_c is replaced)", loc(fn), witness(st))
